@@ -827,6 +827,11 @@ func (p *Parser) parseFunctionDefinition() ast.Expression {
 	p.nextToken()
 
 	// Define a function with the identifier
+	if !p.curTokenIs(token.IDENT) {
+		msg := fmt.Sprintf("expected a function name but got %s around %s", p.curToken.Literal, p.curToken.Position())
+		p.errors = append(p.errors, msg)
+		return nil
+	}
 	lit := &ast.FunctionDefinition{Token: p.curToken}
 
 	// Expect "("
@@ -880,6 +885,11 @@ func (p *Parser) parseFunctionParameters() []*ast.Identifier {
 		}
 
 		// Get the identifier.
+		if !p.curTokenIs(token.IDENT) {
+			msg := fmt.Sprintf("expected a parameter name but got %s around %s", p.curToken.Literal, p.curToken.Position())
+			p.errors = append(p.errors, msg)
+			return nil
+		}
 		ident := &ast.Identifier{Token: p.curToken, Value: p.curToken.Literal}
 		identifiers = append(identifiers, ident)
 		p.nextToken()
